@@ -22,7 +22,7 @@ Lemma load_P : forall st spec0 range asset in_dyn root attr count,
   P st -> P (load W o st spec0 range asset in_dyn root attr count).
 Proof.
   intros st spec0 range asset in_dyn root attr count H. unfold load.
-  set (s := match lookup spec0 (st_redirects st) with Some r => r | None => spec0 end).
+  set (s := load_target st spec0).
   destruct (asset && negb (N.eqb attr 0) && negb (attr_allowed o attr)).
   { eapply P_ext; [| | | |exact H]; reflexivity. }
   assert (Hp : P match class_of W s with
@@ -31,6 +31,14 @@ Proof.
                  | SUrl => queue_load st s range asset in_dyn root attr count
                  end).
   { destruct (class_of W s); [apply P_queue; exact H | |]; (eapply P_ext; [| | | |exact H]; reflexivity). }
+  assert (Hp' : P (if has_key s (st_redirects st) then set_slot st s (BErr (BLoad s range 1))
+                   else match class_of W s with
+                        | SNode => (set_slot st s (BMod (node_module s))) <| st_has_node := true |>
+                        | SBad => set_slot st s (BErr (BBadSpecifier s range))
+                        | SUrl => queue_load st s range asset in_dyn root attr count
+                        end)).
+  { destruct (has_key s (st_redirects st)); [eapply P_ext; [| | | |exact H]; reflexivity | exact Hp]. }
+  clear Hp. rename Hp' into Hp.
   destruct (lookup s (st_slots st)) as [sl|]; [|exact Hp].
   destruct (match sl with BExternal true => negb asset | _ => false end); [exact Hp|].
   destruct (match sl with BPending true => negb asset | _ => false end); [|exact H].
